@@ -5,13 +5,14 @@
      path 2  send_all_from_iterable on a socket without sendmsg / SSLStreamTransport (join + send_all)
      path 3  AsyncTLSStreamTransport.__write_all_to_ssl_object backlog loop (see IO/TlsWrite.v)
      path 4  asyncio adapter (writelines + drain): outcome and wire only
+     path 5,6,7  real sockets / real TLS objects, chunks may be L [A seed; A len]: outcome and digest of the received bytes
      tmo     = L [] (math.inf) | L [A ticks]
      sock answer = L [A kind; A n; A cost]   kind 0 Sent n | 1,2 would-block-on-write | 3,4 would-block-on-read | 5 connection error
      sel answer  = L [A ready; A elapsed]
    output = L [A outcome; B wire; L waits; A dt]
      outcome 0 returned | 1 TimeoutError | 2 ConnectionError | 3 ValueError | 4 RuntimeError | 9 does not terminate (fuel)
      wait    = L [A write?; tmo requested]                                                                       *)
-From EN Require Import Lib.Bytes Lib.Sx IO.Retry IO.SendAll IO.SendMsg IO.TlsWrite Gen.ParamsC04.
+From EN Require Import Lib.Bytes Lib.Sx IO.Retry IO.SendAll IO.SendMsg IO.TlsWrite IO.Payload Gen.ParamsC04.
 Open Scope Z_scope.
 
 Definition as_tmo (x : sx) : option tmo := as_opt as_Z x.
@@ -45,7 +46,7 @@ Definition of_sres (r : sres) : sx :=
 Definition run (i : sx) : sx :=
   match i with
   | L (A path :: A iov :: chunks :: T :: ri :: script :: sels :: _) =>
-      do chunks <- as_list_of as_bytes chunks;
+      do chunks <- as_list_of as_chunk chunks;
       do T <- as_tmo T;
       do ri <- as_tmo ri;
       do script <- as_list_of as_sockans script;
@@ -67,6 +68,15 @@ Definition run (i : sx) : sx :=
             let r := send_all_join F ri F chunks None s [] in
             L [A (out_code (sr_out r)); B (sk_wire (sr_sock r)); L []; A 0]
         end
+      else if (path =? 5) || (path =? 6) then
+        (* real sockets / real TLS objects (no scripted faults): only the outcome and a digest of what the peer
+           received are compared.  path 5 = SocketStreamTransport / TCP client (sendmsg loop, SC_IOV_MAX = iov),
+           path 6 = join + send_all (SSLStreamTransport) ; path 7 = async TLS backlog on a real SSLObject *)
+        let r := send_iter sendmsg_drops_empty_views (path =? 5) iov F F ri chunks None s [] in
+        L [A (out_code (sr_out r)); digest (sk_wire (sr_sock r)); L []; A 0]
+      else if path =? 7 then
+        let r := tls_flush F chunks s in
+        L [A (out_code (sr_out r)); digest (sk_wire (sr_sock r)); L []; A 0]
       else bad_input
   | _ => bad_input
   end.
